@@ -13,7 +13,11 @@ Abstractions
   identified by its hash, so this is the same information as a field of the list element);
   the calls of the resend callback made by one `RemoveStale` are logged in `resent` (in call order;
   the Go code makes them from a goroutine started at the end of `RemoveStale`);
-* locks, events, metrics callback and `data` are not modelled.
+* `item.data` is kept in the map `data` (hash ↦ the value given to `Add`; `any` is a number here, 0 = nil),
+  for the same reason as `stamp`;
+* the subscription events the pool sends on `mp.events` are appended to `events` while `subsOn`
+  (`subscriptionsOn`) is set (subscriptions.go: RunSubscriptions / StopSubscriptions);
+* the mutex (each exported method is one step) and the metrics callback are not modelled.
 -/
 namespace NeoModel.Mempool
 
@@ -68,6 +72,13 @@ structure Feer where
   /-- `BlockHeight()` (uint32) -/
   height : Nat := 0
 
+/-- mempoolevent.Event: `Type` (TransactionAdded / TransactionRemoved), `Tx` (by hash), `Data`. -/
+structure Event where
+  added : Bool
+  id : Nat
+  data : Nat
+  deriving DecidableEq, Repr
+
 def upd {κ ν : Type} [DecidableEq κ] (m : κ → Option ν) (k : κ) (v : Option ν) : κ → Option ν :=
   fun x => if x = k then v else m x
 
@@ -83,12 +94,21 @@ structure Pool where
   panicked : Bool
   stamp : Nat → Nat := fun _ => 0     -- item.blockStamp, by transaction hash
   resendThreshold : Nat := 0          -- resendThreshold
-  resent : List Nat := []             -- hashes passed to resendFunc by the last RemoveStale
+  resent : List (Nat × Nat) := []     -- (hash, data) passed to resendFunc by the last RemoveStale
+  data : Nat → Nat := fun _ => 0      -- item.data, by transaction hash
+  subsOn : Bool := false              -- subscriptionsOn
+  events : List Event := []           -- everything sent on mp.events so far
 
 /-- mem_pool.go:501 `New`. -/
 def new (capacity : Nat) : Pool :=
   { txs := [], vmap := fun _ => none, fees := fun _ => none, conflicts := fun _ => none,
     oracleResp := fun _ => none, capacity := capacity, feePerByte := 0, panicked := false }
+
+/-- `if mp.subscriptionsOn.Load() { mp.events <- e }` (mem_pool.go:360, 421, 465). -/
+def emit (mp : Pool) (e : Event) : List Event := if mp.subsOn then mp.events ++ [e] else mp.events
+
+/-- subscriptions.go:7 `RunSubscriptions` / :17 `StopSubscriptions` (the flag only). -/
+def setSubs (mp : Pool) (on : Bool) : Pool := { mp with subsOn := on }
 
 /-- mem_pool.go:175 `getPayer`. -/
 def getPayer (t : Tx) : Payer × Bool :=
@@ -158,7 +178,8 @@ def removeFromMap (mp : Pool) (itm : Tx) : Pool :=
     conflicts := removeConflictsOf mp.conflicts itm
     oracleResp := match itm.oracle with
       | some id => upd mp.oracleResp id none
-      | none => mp.oracleResp }
+      | none => mp.oracleResp
+    events := emit mp { added := false, id := itm.id, data := mp.data itm.id } }   -- l.421-427
 
 /-- index of the first element with the given hash, `len-1` if there is none (the Go `for num = range` loop). -/
 def findNum (l : List Tx) (h : Nat) : Nat :=
@@ -303,26 +324,29 @@ def placeLast (mp : Pool) (t : Tx) : Pool :=
   else { mp with txs := mp.txs ++ [t] }
 
 /-- mem_pool.go:339-347: verifiedMap, oracleResp and conflicts entries of the inserted transaction. -/
-def register (mp : Pool) (t : Tx) (height : Nat) : Pool :=
+def register (mp : Pool) (t : Tx) (height : Nat) (d : Nat) : Pool :=
   { mp with
     stamp := fun x => if x = t.id then height else mp.stamp x    -- l.236 `blockStamp: fee.BlockHeight()`
+    data := fun x => if x = t.id then d else mp.data x           -- l.238-240 `pItem.data = data[0]`
     vmap := upd mp.vmap t.id (some t)
     oracleResp := match t.oracle with
       | some id => upd mp.oracleResp id (some t.id)
       | none => mp.oracleResp
     conflicts := addConflictEntries mp.conflicts t.id t.conflicts }
 
-/-- mem_pool.go:273-349: insertion index, capacity check / eviction, shifting, bookkeeping. -/
-def insertStage (mp : Pool) (t : Tx) (feer : Feer) : Pool × Option Err :=
+/-- mem_pool.go:273-366: insertion index, capacity check / eviction, shifting, bookkeeping, the
+TransactionAdded event (sent after the unlock, l.360-366). -/
+def insertStage (mp : Pool) (t : Tx) (feer : Feer) (d : Nat) : Pool × Option Err :=
   let n := insertIdx mp.txs t
   if mp.txs.length = mp.capacity ∧ n = mp.txs.length then (mp, some .oom)
   else
     let mp1 := placeLast mp t
     let mp2 := { mp1 with txs := shiftInsert mp1.txs n t }
-    ((tryAddSendersFee (register mp2 t feer.height) t feer false).1, none)
+    let mp3 := (tryAddSendersFee (register mp2 t feer.height d) t feer false).1
+    ({ mp3 with events := emit mp3 { added := true, id := t.id, data := d } }, none)
 
 /-- mem_pool.go:233 `Add`. -/
-def add (mp : Pool) (t : Tx) (feer : Feer) : Pool × Option Err :=
+def add (mp : Pool) (t : Tx) (feer : Feer) (d : Nat) : Pool × Option Err :=
   if (mp.vmap t.id).isSome then (mp, some .dup)
   else
   match checkTxConflicts mp t feer with
@@ -331,7 +355,7 @@ def add (mp : Pool) (t : Tx) (feer : Feer) : Pool × Option Err :=
     let r := oracleStage mp t
     if r.1.panicked then (r.1, some .oracle)
     else if !r.2 then (r.1, some .oracle)
-    else insertStage (removeAll r.1 toRemove) t feer
+    else insertStage (removeAll r.1 toRemove) t feer d
 
 /-- mem_pool.go:483 `loadPolicy`. -/
 def loadPolicy (mp : Pool) (feer : Feer) : Pool × Bool :=
@@ -353,6 +377,14 @@ def dueForResend (threshold height stamp : Nat) : Bool :=
 /-- mem_pool.go:522 `SetResendThreshold`. -/
 def setResendThreshold (mp : Pool) (h : Nat) : Pool := { mp with resendThreshold := h }
 
+/-- mem_pool.go:461-471: the index updates and the event of `RemoveStale` for a dropped transaction. -/
+def dropEntry (mp : Pool) (itm : Tx) : Pool :=
+  { mp with vmap := upd mp.vmap itm.id none
+            oracleResp := match itm.oracle with
+              | some id => upd mp.oracleResp id none
+              | none => mp.oracleResp
+            events := emit mp { added := false, id := itm.id, data := mp.data itm.id } }
+
 /-- mem_pool.go:445-473: the loop of `RemoveStale`; `acc` is `newVerifiedTxes`. -/
 def staleLoop (isOK : Tx → Bool) (feer : Feer) (policyChanged : Bool) : List Tx → Pool → List Tx → Pool × List Tx
   | [], mp, acc => (mp, acc)
@@ -363,19 +395,12 @@ def staleLoop (isOK : Tx → Bool) (feer : Feer) (policyChanged : Bool) : List T
         staleLoop isOK feer policyChanged rest
           { mp with conflicts := addConflictEntries mp.conflicts itm.id itm.conflicts
                     resent := if dueForResend mp.resendThreshold feer.height (mp.stamp itm.id)
-                      then mp.resent ++ [itm.id] else mp.resent } (acc ++ [itm])
+                      then mp.resent ++ [(itm.id, mp.data itm.id)] else mp.resent } (acc ++ [itm])
       | (mp, false) =>
         staleLoop isOK feer policyChanged rest
-          { mp with vmap := upd mp.vmap itm.id none
-                    oracleResp := match itm.oracle with
-                      | some id => upd mp.oracleResp id none
-                      | none => mp.oracleResp } acc
+          (dropEntry mp itm) acc
     else
-      staleLoop isOK feer policyChanged rest
-        { mp with vmap := upd mp.vmap itm.id none
-                  oracleResp := match itm.oracle with
-                    | some id => upd mp.oracleResp id none
-                    | none => mp.oracleResp } acc
+      staleLoop isOK feer policyChanged rest (dropEntry mp itm) acc
 
 /-- mem_pool.go:433 `RemoveStale`. -/
 def removeStale (mp : Pool) (isOK : Tx → Bool) (feer : Feer) : Pool :=
@@ -390,5 +415,33 @@ def hasConflicts (mp : Pool) (t : Tx) : Bool :=
 
 /-- mem_pool.go:134 `ContainsKey`. -/
 def containsKey (mp : Pool) (h : Nat) : Bool := (mp.vmap h).isSome
+
+/-- mem_pool.go:536 `TryGetValue`. -/
+def tryGetValue (mp : Pool) (h : Nat) : Option Tx := mp.vmap h
+
+/-- mem_pool.go:552-554 the closure given to `sort.Search`: `itm.Compare(mp.verifiedTxes[n]) >= 0`. -/
+def notBelow (l : List Tx) (t : Tx) (n : Nat) : Bool :=
+  match l[n]? with
+  | some e => decide (compare t e ≥ 0)
+  | none => false
+
+/-- mem_pool.go:556-563: the scan from the left bound of the equally prioritized items. -/
+def scanData (t : Tx) (h : Nat) (data : Nat → Nat) : List Tx → Option Nat
+  | [] => none
+  | e :: rest =>
+    if e.id = h then some (data e.id)
+    else if compare t e ≠ 0 then none
+    else scanData t h data rest
+
+/-- mem_pool.go:547 `TryGetData` (`some d` = `(d, true)`, `none` = `(nil, false)`). -/
+def tryGetData (mp : Pool) (h : Nat) : Option Nat :=
+  match mp.vmap h with
+  | none => none
+  | some tx =>
+    let n := sortSearch mp.txs.length (notBelow mp.txs tx)
+    scanData tx h mp.data (mp.txs.drop n)    -- (`if n < len` only skips an empty loop)
+
+/-- mem_pool.go:692 `IterateVerifiedTransactions` with a `cont` that always returns true. -/
+def iterate (mp : Pool) : List (Nat × Nat) := mp.txs.map (fun t => (t.id, mp.data t.id))
 
 end NeoModel.Mempool
